@@ -54,7 +54,8 @@ func (e *engine) Info() core.Info {
 		SchedMeasure:  "distinct interleavings = distinct hashes of the sequence of tasks chosen at every scheduling decision",
 		TimeStatement: "no clock or timer exists in extract; simulated time = scheduler steps (one per intercepted lock acquisition, channel operation, spawn, join)",
 		Assumptions: []string{
-			"every shared access of extract is lock-protected, so yielding before every lock acquisition and channel operation explores every distinguishable interleaving class; a change that REMOVES a lock is a data race this scheduler cannot see",
+			"for code whose shared accesses are all lock-protected, yielding before every lock acquisition and channel operation explores every distinguishable interleaving class; one run in six additionally switches tasks between any two statements (yield points inserted by tools/hookfill at build time)",
+			"unprotected accesses: every read/write of a map-typed struct field of the package is announced (tools/hookfill) and checked against the happens-before order of the announced synchronisation (vector clocks: spawn, join, lock release->acquire, send->receive, close); a pair of accesses with a write that nothing orders is reported as data-race. Not covered: shared variables other than map-typed struct fields (captured locals, slices, scalars), accesses inside statements that also call something that may synchronise, and code using sync/atomic, sync.Once/Map/Cond/WaitGroup, select or extra goroutines (the tracker switches itself off for such a tree and says so in a probe)",
 			"osmxml.Scanner and encoding/xml are synchronous (no goroutines of their own); osmpbf's decoder goroutines are NOT simulated: they never touch a hook, their output order is deterministic and the main task waits for them while holding the token, so PBF runs replay exactly as long as no read error or cancellation is injected — PBF runs therefore use only the fault-free and legal-reader classes",
 			"Filter's own map iteration order is not behind a seam (the hooks are add-only); for correct code its result is order-independent; it is evaluated 4 times per run (64 times in a replay)",
 			"under an injected fault the only accepted outcomes are an error (whatever accompanies it) or (data equal to the model, nil)",
